@@ -137,7 +137,8 @@ Inductive pevent :=
 | PPersistErr (snp : bool) (id : Z)
 | PRemoveOk (snp : bool) (id : Z)
 | PRemoveErr (snp : bool) (id : Z)
-| PAck (k : Z) (ok : bool).                         (* safe Batch returned / persisted-callback fired, with or without error *)
+| PAck (k : Z) (ok : bool)                          (* safe Batch returned / persisted-callback fired, with or without error *)
+| PFault.                                           (* a Load / List operation of the directory failed *)
 
 Definition fly_remove (snp : bool) (id : Z) (l : list inflight) : list inflight :=
   filter (fun f => negb (Bool.eqb (if_snp f) snp && (if_id f =? id))) l.
@@ -229,9 +230,11 @@ Definition paccept_ev (table : list (list Z)) (st : pstate) (ev : pevent) : opti
       | _, _ => None
       end
   | PPersistStart false id bytes _ =>
-      (* segment files are written once: never over a complete or left-over file *)
-      if negb (zmem id (d_seg d)) && negb (zmem id (d_junk_seg d))
-      then Some (with_disk st (mkdisk d (d_snp d) (d_seg d)
+      (* a segment file is never written over a left-over file, and is rewritten (a retry after a failed
+         persist round) only while no complete snapshot names it: from here on the old content is gone *)
+      if negb (zmem id (d_junk_seg d))
+         && negb (existsb (fun ef => zmem id (map fst (sf_segs (snd ef)))) (d_snp d))
+      then Some (with_disk st (mkdisk d (d_snp d) (zremove id (d_seg d))
                                  ({| if_snp := false; if_id := id; if_bytes := bytes; if_segs := [] |} :: d_fly d)))
       else None
   | PPersistOk true epoch =>
@@ -256,7 +259,10 @@ Definition paccept_ev (table : list (list Z)) (st : pstate) (ev : pevent) : opti
                           (pol_removed_snp (ps_pol st) epoch))
       else None
   | PRemoveOk false id =>
+      (* clean-up runs in the persister between persist rounds: never while a snapshot naming the
+         segment is being written *)
       if pol_may_remove_seg (ps_pol st) id
+         && negb (existsb (fun f => if_snp f && zmem id (map fst (if_segs f))) (d_fly d))
       then Some (with_pol (with_disk st (mkdisk d (d_snp d) (zremove id (d_seg d)) (d_fly d)))
                           (pol_removed_seg (ps_pol st) id))
       else None
@@ -275,6 +281,7 @@ Definition paccept_ev (table : list (list Z)) (st : pstate) (ev : pevent) : opti
   | PAck k false =>
       (* an error is only ever reported after something failed (or the writer was closed) *)
       if ps_faulted st then Some st else None
+  | PFault => Some (set_faulted st)
   end.
 
 Fixpoint paccept_run (table : list (list Z)) (st : pstate) (evs : list pevent) : option pstate :=
